@@ -1223,12 +1223,16 @@ impl Band {
         let ncols = end.1 - start.1;
         if nrows > ncols {
             for r in start.0..end.0 {
-                let c = start.1 + (end.1 - start.1) * (r - start.0) / (end.0 - start.0);
+                // the product is bounded by nrows * ncols only: compute it in u64 (it overflowed u32 for gaps
+                // that span 65536 or more symbols of both sequences); the quotient is at most ncols
+                let c = start.1
+                    + ((end.1 - start.1) as u64 * (r - start.0) as u64 / (end.0 - start.0) as u64) as u32;
                 self.add_entry((r, c), w);
             }
         } else {
             for c in start.1..end.1 {
-                let r = start.0 + (end.0 - start.0) * (c - start.1) / (end.1 - start.1);
+                let r = start.0
+                    + ((end.0 - start.0) as u64 * (c - start.1) as u64 / (end.1 - start.1) as u64) as u32;
                 self.add_entry((r, c), w);
             }
         }
